@@ -25,7 +25,41 @@ theorem C07_guard (c : HdrCfg) (info : Extracted) (h : Text)
   have hg := (createNewHeader_ok hok).2
   unfold guardOk at hg
   simp only [Bool.and_eq_true] at hg
-  exact ⟨sameSet_iff.mp hg.1, sameSet_iff.mp hg.2⟩
+  exact ⟨sameSet_iff.mp hg.1.1, sameSet_iff.mp hg.1.2⟩
+
+/-- **The guard, contributors.**  A header that `_create_new_header` returns and that shows any
+    contributor at all (the template renders contributors) reads back exactly the requested
+    contributors: none is cut short by a comment terminator, none is lost, none is invented.
+    (A template that leaves the contributors out is accepted: C09 speaks of "any template that
+    renders them".) -/
+theorem C07_guard_contributors (c : HdrCfg) (info : Extracted) (h : Text)
+    (hok : createNewHeader c info = .ok h) (hshown : (extractRaw h).con ≠ []) :
+    ∀ x, x ∈ info.con ↔ x ∈ (extractRaw h).con := by
+  have hg := (createNewHeader_ok hok).2
+  unfold guardOk at hg
+  simp only [Bool.and_eq_true, Bool.or_eq_true, List.isEmpty_iff] at hg
+  rcases hg.2 with h0 | h1
+  · exact (hshown h0).elim
+  · exact sameSet_iff.mp h1
+
+/-- A header that shows contributors other than the requested ones — one of them read back
+    truncated, say — is never returned. -/
+theorem C07_guard_refuses_contributors (c : HdrCfg) (info : Extracted) (result : Text)
+    (hr : renderedHeader c info = .ok result) (hshown : (extractRaw result).con ≠ [])
+    (hbad : ∃ x, ¬ (x ∈ info.con ↔ x ∈ (extractRaw result).con)) :
+    createNewHeader c info = .error .missingInfo := by
+  rw [createNewHeader_eq, hr]
+  have : guardOk c info result = false := by
+    cases hg : guardOk c info result with
+    | false => rfl
+    | true =>
+      unfold guardOk at hg
+      simp only [Bool.and_eq_true, Bool.or_eq_true, List.isEmpty_iff] at hg
+      obtain ⟨x, hx⟩ := hbad
+      rcases hg.2 with h0 | h1
+      · exact (hshown h0).elim
+      · exact (hx (sameSet_iff.mp h1 x)).elim
+  simp [this]
 
 /-- A header is never returned when either kind of information cannot be read back. -/
 theorem C07_guard_refuses (c : HdrCfg) (info : Extracted) (result : Text)
@@ -41,8 +75,8 @@ theorem C07_guard_refuses (c : HdrCfg) (info : Extracted) (result : Text)
       unfold guardOk at hg
       simp only [Bool.and_eq_true] at hg
       rcases hbad with ⟨x, hx⟩ | ⟨x, hx⟩
-      · exact (hx (sameSet_iff.mp hg.1 x)).elim
-      · exact (hx (sameSet_iff.mp hg.2 x)).elim
+      · exact (hx (sameSet_iff.mp hg.1.1 x)).elim
+      · exact (hx (sameSet_iff.mp hg.1.2 x)).elim
   simp [this]
 
 /-- `create_header` on an existing header: the new header reads back everything requested
@@ -316,10 +350,11 @@ theorem C07_default_header (c : HdrCfg) (info : Extracted) (m : LineMode)
     have hext' : extractRaw (join ['\n'] (C07A.headerLines c.style m
         (C07A.bodyLines (sortTexts info.cpr) (sortTexts info.con) (sortTexts info.lic)))) = _ := hext
     rw [hext']
-    simp only [Bool.and_eq_true]
-    refine ⟨sameSet_iff.mpr fun x => ?_, sameSet_iff.mpr fun x => ?_⟩
+    simp only [Bool.and_eq_true, Bool.or_eq_true]
+    refine ⟨⟨sameSet_iff.mpr fun x => ?_, sameSet_iff.mpr fun x => ?_⟩, .inr (sameSet_iff.mpr fun x => ?_)⟩
     · rw [mem_dedup, C07A.mem_sortTexts]
     · simp only [List.mem_map, mem_dedup, C07A.mem_sortTexts]
+    · rw [mem_dedup, C07A.mem_sortTexts]
   simp [hg]
 
 /-- **The default template is achievable — general form.**  For *any* style `c.style` and line
